@@ -1,14 +1,99 @@
 from vlib import Job
 
-META = dict(bounds='wip', outside='wip', assumptions=[])
-SH = ['c04_heap.c']
+META = dict(
+    bounds='(1) SleepQueue: every valid heap of n <= 6 (quick) / 10 (thorough) distinct thread objects with symbolic 64-bit deadlines (equal and UINT64_MAX '
+           'included), ONE real push / pop(th) / pop_front / up / down with a symbolic member or new element; vector growth (_M_realloc_insert) for n <= 2 / 3. '
+           '(2) two consecutive blocking calls (thread_yield / thread_usleep with a symbolic 64-bit timeout, optionally shutting down) of one thread on a vCPU with one '
+           'other runnable thread (+ optionally one unrelated sleeper); while switched out: <= 2 (thorough 3) real thread_interrupt() calls per switch-out (same-vCPU '
+           'or cross-vCPU, before / after the scheduling round), a symbolic monotone clock advance, one real resume_threads() round, real AtomicRunQ::goto_next(). '
+           '(3) Timeout arithmetic: full 64-bit symbolic clock, durations and clock advance. '
+           '(4) resume_threads(): one call from every valid vCPU state of 3 (thorough 4) threads besides the running one, each symbolic in {SLEEPING, SLEEPING in a '
+           'wait queue, STANDBY still in the heap, STANDBY already out of the heap, READY}, symbolic heap slots, list orders, deadlines, reasons and clock; '
+           'idler(): one round with <= 3 sleepers.',
+    outside='longer histories than two blocking calls / one scheduling round per switch-out (the per-step checks are inductive over the representation invariant, the '
+            'two-call sequences are not); more than one other runnable thread; true concurrency of a cross-vCPU interrupt with resume_threads() on the target vCPU '
+            '(the cross-vCPU branch is executed atomically between the target vCPU\'s steps; the window "interrupted just after standbyq.eject_whole_atomic()" is not '
+            'covered); the machine-level context switch; the clock source (clock_gettime / rdtsc / vDSO mimic); thread_usleep_defer variants; work stealing.',
+    assumptions=[
+        'switch_context(from,to) (inline asm) is replaced by harness code that runs the other side\'s script with the real functions and returns when "from" is RUNNING again',
+        'update_now() (clock_gettime + conversion) is replaced by "any value >= the current runtime clock"; rdtsc returns an arbitrary value; whether a timestamp-updater '
+        'thread is running is symbolic; in the idler round the clock is not refreshed by the idler itself',
+        'operator new returns a fresh zero-initialised block of 16 pointers from a static pool (rt/c04_heap.c); exhaustion / oversize is an assertion failure; never fails',
+        'thread objects live in zero-initialised static storage with the constructor\'s field values set by the harness (idx = -1, self-linked list node, state, vcpu)',
+        'interrupt reasons are non-zero (thread_interrupt(th, 0) is indistinguishable from a normal wake-up by design)',
+        'spin-wait iterations are cut (single OS thread: every lock is free when taken; lock release is CHECKed)',
+        'vcpu_t is zero-initialised static storage + the fields used (master_event_engine = recording engine, state, flags = 0: no work stealing)',
+    ],
+)
+
+SHIM = ['c04_heap.c']
+SWITCH = '_ZN6photon14switch_contextEPNS_6threadES1_'
+UPD = '_ZN6photonL10update_nowEv'
+SCHED_CLANG = ['-mllvm', '-force-attribute=%s:noinline' % SWITCH, '-mllvm', '-force-attribute=%s:noinline' % UPD]
+SCHED_IR2C = ['--asm', 'rdtsc=verif_rdtsc', '--map', '^@%s$=verif_update_now' % UPD, '--map', '^@%s$=verif_switch' % SWITCH]
+POP = 'f__ZN6photon10SleepQueue3popEPNS_6threadE'
+POPF = 'f__ZN6photon10SleepQueue9pop_frontEv'
+PUSH = 'f__ZN6photon10SleepQueue4pushEPNS_6threadE'
+RES = 'f__ZN6photonL14resume_threadsEPNS_6vcpu_tERKNS_4RunQE'
+IDL = 'f__ZN6photonL5idlerEPv'
+
+
+def heap_uw(depth_bound):
+    return ['%s.0:%d' % (POP, depth_bound), '%s.1:%d' % (POP, depth_bound), '%s.0:%d' % (POPF, depth_bound), '%s.0:%d' % (PUSH, depth_bound)]
+
+
+def sched(name, entry, defines, unwind, unwindset, desc, bounds, timeout, mem_gb=5):
+    return Job(name, 'C04/h_sched.cpp', entry, defines=defines, unwind=unwind, unwindset=unwindset, shims=SHIM, clang=SCHED_CLANG, ir2c=SCHED_IR2C,
+               timeout=timeout, mem_gb=mem_gb, desc=desc, bounds=bounds)
+
 
 def jobs(tier):
     q = tier == 'quick'
+    TO = 900 if q else 6000
     J = []
-    n = 7 if q else 10
+    # ---- (1) SleepQueue, one inductive step per operation
+    n = 6 if q else 10
     names = ['push', 'pop', 'pop_front', 'up', 'down']
     for op in range(5):
-        J.append(Job('sleepq_%s_n%d' % (names[op], n), 'C04/h_sleepq.cpp', 'harness_sleepq', defines=['NMAX=%d' % n, 'OP=%d' % op], unwind=n + 3, shims=SH,
-                     timeout=300, mem_gb=6, desc='SleepQueue::%s from every valid heap of <= %d threads' % (names[op], n), bounds='<= %d members, 64-bit symbolic deadlines' % n))
+        J.append(Job('sleepq_%s_n%d' % (names[op], n), 'C04/h_sleepq.cpp', 'harness_sleepq', defines=['NMAX=%d' % n, 'OP=%d' % op], unwind=n + 3, shims=SHIM,
+                     timeout=TO, mem_gb=4 if q else 12, desc='SleepQueue::%s from every valid heap of <= %d threads: invariant, membership, idx == -1, front() minimal' % (names[op], n),
+                     bounds='<= %d members before the step, 64-bit symbolic deadlines, symbolic member / new element' % n))
+    nr = 2 if q else 3
+    J.append(Job('sleepq_push_grow_n%d' % nr, 'C04/h_sleepq.cpp', 'harness_sleepq', defines=['NMAX=%d' % nr, 'OP=0', 'NORESERVE'], unwind=nr + 3,
+                 unwindset=['verif_memmove_n.0:%d' % (8 * nr + 2), 'verif_memmove_n.1:%d' % (8 * nr + 2)], shims=SHIM, timeout=TO, mem_gb=5,
+                 desc='SleepQueue::push with the vector growing by itself (std::vector::_M_realloc_insert inside the step)', bounds='<= %d members, capacity not reserved' % nr))
+    # ---- (3) Timeout arithmetic
+    J.append(Job('timeout_arith', 'C04/h_timeout.cpp', 'harness_timeout', unwind=3, shims=SHIM, timeout=TO, mem_gb=2,
+                 desc='Timeout(x) saturates, expired() <=> expiration <= now, timeout() = saturating difference, timeout_at_most, shutdown cap, re-arming; no early expiry',
+                 bounds='64-bit symbolic clock, duration, clock advance'))
+    J.append(Job('timeout_compare', 'C04/h_timeout.cpp', 'harness_timeout_cmp', unwind=3, shims=SHIM, timeout=TO, mem_gb=2,
+                 desc='Timeout operators <, >, >=, == agree with the order of expirations', bounds='64-bit symbolic expirations'))
+    J.append(Job('FINDING_timeout_operator_le', 'C04/h_timeout.cpp', 'harness_timeout_cmp', defines=['WITH_LE'], unwind=3, shims=SHIM, timeout=TO, mem_gb=2,
+                 desc='Timeout::operator<= is implemented with "<": false for equal deadlines (suspected defect, common/timeout.h:59)', bounds='64-bit symbolic expirations'))
+    # ---- (4) resume_threads, idler
+    nt = 3 if q else 4
+    d = nt.bit_length()
+    J.append(sched('resume_n%d' % nt, 'harness_resume', ['H_RESUME', 'NTH=%d' % nt], nt + 3, heap_uw(d) + ['%s.2:%d' % (RES, nt + 1), '%s.6:%d' % (RES, nt + 1)],
+                   'one resume_threads() round from every valid (run list, standbyq, sleep heap, wait queue) state', '%d threads besides the running one' % nt, TO, 5 if q else 16))
+    J.append(sched('idler_n3', 'harness_idler', ['H_IDLER', 'NTH=3'], 5, heap_uw(2) + ['%s.5:2' % IDL, '%s.14:2' % IDL, '%s.16:2' % IDL, '%s.2:4' % RES, '%s.6:4' % RES],
+                   'one idler() round: engine wait == min(10*2^20 us, earliest deadline - now), never beyond any sleeper\'s deadline', '<= 3 sleepers, none due', TO))
+    # ---- (2) sequences of two blocking calls with interrupts in between
+    suw = heap_uw(2) + ['%s.2:3' % RES, '%s.6:3' % RES]
+    nev = 2 if q else 3
+    def seq(name, defs, desc, bounds='2 blocking calls, <= %d interrupts per switch-out' % nev, mem=6):
+        return sched(name, 'harness_seq', ['H_SEQ', 'NEV=%d' % nev] + defs, 4, suw, desc, bounds, TO, mem if q else 3 * mem)
+    J.append(seq('seq_sleep_sleep', ['SCN=2', 'REAL1'], 'sleep (not yet expired), then sleep: 0 only after the deadline; -1 only with the errno of an interrupt issued during that very sleep'))
+    J.append(seq('seq_sleep_yield', ['SCN=5', 'REAL1'], 'sleep, then yield: the yield reports only an interrupt issued during it'))
+    J.append(seq('seq_yield_yield', ['SCN=3'], 'yield, then yield'))
+    J.append(seq('seq_sleep_sleep_shutdown', ['SCN=2', 'REAL1', 'SHUTDOWN'], 'same with a symbolic shutting_down flag: -1/EPERM after min(t, 10ms) unless interrupted', mem=8))
+    if not q:
+        J.append(seq('seq_sleep_sleep_sleeper', ['SCN=2', 'REAL1', 'WITH_SLEEPER'], 'sleep, sleep with an unrelated sleeper in the heap that may be woken in between', mem=10))
+    J.append(seq('FINDING_interrupt_in_yield_leaks_into_next_sleep', ['SCN=1'],
+                 'yield, then sleep: an interrupt that arrives during thread_yield() is returned by it but stays stored in error_number; the next, unrelated thread_usleep '
+                 'that times out normally returns -1 with the stale errno (suspected defect, thread.cpp thread_yield / thread_interrupt READY branch)'))
+    J.append(seq('FINDING_interrupt_before_first_run_fails_later_sleep', ['SCN=4'],
+                 'a READY thread that has not run yet is interrupted: the reason is stored and its first thread_usleep, although it sleeps the full time, returns -1'))
+    if not q:
+        J.append(seq('FINDING_interrupt_in_expired_sleep_leaks_into_next_sleep', ['SCN=2'],
+                     'sleep with an already expired timeout (= yield), then sleep: same stale-errno leak through thread_usleep(0)'))
     return J
